@@ -9,6 +9,8 @@
 
 using namespace engine;
 
+bool c20_uci_budget(Tape& t, Report& rep);  // pbt_search.cpp: what the search does with the clock
+
 namespace
 {
 // ------------------------------------------------------------------------------------------------
@@ -340,6 +342,7 @@ int pick_boundary(Tape& t, int hi, std::initializer_list<int> specials)
 
 bool prop_C20(Tape& t, Report& rep)
 {
+    if (t.chance(1, 400)) return c20_uci_budget(t, rep);
     for (int i = 0; i < 16; ++i)
     {
         Limits L;
